@@ -21,12 +21,18 @@ class SDVRP(Adapter):
         insts = []
         if tier == "quick":
             spec = [(3, (1, 2, 3), (3, 4), [(0, 0)]),
-                    (2, (1, 3, 5), (2, 4), [(1, 2)])]
+                    (2, (1, 3, 5), (3, 4), [(1, 2)])]
         else:
-            spec = [(3, (1, 2, 3, 4), (2, 3, 4), [(0, 0)]),
-                    (3, (2, 3, 5), (4, 6), [(1, 2)]),
-                    (4, (1, 3), (3, 4), [(2, 3)]),
-                    (2, (1, 4, 7), (2, 3), [(3, 1)])]
+            spec = [(3, (1, 2, 3), (3, 4), [(0, 0)]),
+                    (3, (1, 2, 3, 4), (4, 5, 6), [(1, 2)]),
+                    (3, (2, 3, 5), (5, 6), [(3, 1)]),
+                    (4, (1, 2, 3), (6,), [(2, 3)]),
+                    (4, (1, 2), (4,), [(0, 1)]),
+                    (2, (1, 4, 7), (3, 4), [(3, 1)]),      # one customer split over 2-3 loads
+                    (2, (2, 5, 9), (4,), [(1, 0)])]
+        # Sizes are chosen so that even a mask that wrongly keeps offering useless visits (every
+        # episode then runs into step_cap) keeps the frontier of the exhaustive expansion below
+        # driver.MAX_ROWS: the defect is then REPORTED (C02) instead of aborting the run.
         for (N, dems, caps, tmpl) in spec:
             for (w, rot) in tmpl:
                 pts, g, D = points_for(N + 1, w, rot)
@@ -37,7 +43,9 @@ class SDVRP(Adapter):
         return with_ids(insts)
 
     def group_key(self, inst):
-        return (inst["N"], inst["cap"])
+        # total demand in the key: the expansion depth of a group is the largest step_cap in it,
+        # so instances with few loads are not dragged to the depth of those with many
+        return (inst["N"], inst["cap"], sum(inst["dem"]))
 
     def step_cap(self, inst):
         """depth at which the exhaustive expansion gives up (such an episode fails C02).  One more
